@@ -938,3 +938,53 @@ Example ex_real_side_conditions :
 Proof.
   split; [repeat split; discriminate|]. split; [lia|]. unfold Rylabel, C06FieldProofs.ylabel. simpl. Lra.lra.
 Qed.
+
+(* ---- FOURTH ROUND: calling context -- which thread executes which batch range (C06Ctx.v / C06CtxProofs.v) ---- *)
+From SharkV Require Import C06Ctx C06CtxProofs.
+
+(* as coded (shared sum inside the critical region): for every assignment a of ranges to threads -- the identity (call from serial
+   code), the constant function (call from inside a parallel region: the inner team is one thread), anything else -- and every
+   arrival order, value and derivative are the mean per-element loss *)
+Theorem C06_calling_context_is_mean_loss :
+  forall (E : Type) (bq : list E -> vec), (forall b, veq (bq b) (vsum (map (fun e => bq [e]) b))) ->
+  forall threads (d : @data E) (a : nat -> nat) order, (1 <= threads)%nat ->
+    Permutation order (seq 0 (length (thread_ranges threads (length d)))) ->
+    veq (errfn_ctx bq a order threads d) (mean_loss bq (elems d)).
+Proof. exact (@ctx_is_mean_loss). Qed.
+Print Assumptions C06_calling_context_is_mean_loss.
+
+Theorem C06_calling_context_assignment_irrelevant :
+  forall (E : Type) (bq : list E -> vec), (forall b, veq (bq b) (vsum (map (fun e => bq [e]) b))) ->
+  forall threads (d : @data E) (a a' : nat -> nat) order order', (1 <= threads)%nat ->
+    Permutation order (seq 0 (length (thread_ranges threads (length d)))) ->
+    Permutation order' (seq 0 (length (thread_ranges threads (length d)))) ->
+    veq (errfn_ctx bq a order threads d) (errfn_ctx bq a' order' threads d).
+Proof. exact (@ctx_assignment_irrelevant). Qed.
+Print Assumptions C06_calling_context_assignment_irrelevant.
+
+(* the call from inside a parallel region of k threads computes literally what the call from serial code with k threads computes,
+   and agrees with every other thread count and batching of the same elements *)
+Theorem C06_nested_call_is_toplevel_computation :
+  forall (E : Type) (bq : list E -> vec) threads (d : @data E), errfn_nested bq threads d = errfn bq threads d.
+Proof. exact (@errfn_nested_eq). Qed.
+Print Assumptions C06_nested_call_is_toplevel_computation.
+
+Theorem C06_nested_call_invariant :
+  forall (E : Type) (bq : list E -> vec), (forall b, veq (bq b) (vsum (map (fun e => bq [e]) b))) ->
+  forall k t (d1 d2 : @data E), (1 <= k)%nat -> (1 <= t)%nat -> elems d1 = elems d2 ->
+    veq (errfn_nested bq k d1) (errfn bq t d2).
+Proof. exact (@nested_call_invariant). Qed.
+Print Assumptions C06_nested_call_invariant.
+
+(* per-thread slots (slot[thread] := partial, summed afterwards; the seeded change C06-8) are NOT independent of the assignment:
+   right with every range on its own thread, wrong for the nested call, while the coded shared sum agrees on the same events *)
+Theorem C06_per_thread_slots_refuted :
+  exists (bq : list Q -> vec) (d : @data Q) (threads : nat) (a a' : nat -> nat) (order : list nat),
+    (forall b, veq (bq b) (vsum (map (fun e => bq [e]) b))) /\ (1 <= threads)%nat /\
+    Permutation order (seq 0 (length (thread_ranges threads (length d)))) /\
+    veq (errfn_slots bq a order threads d) (mean_loss bq (elems d)) /\
+    ~ veq (errfn_slots bq a' order threads d) (mean_loss bq (elems d)) /\
+    ~ veq (errfn_slots bq a order threads d) (errfn_slots bq a' order threads d) /\
+    veq (errfn_ctx bq a order threads d) (errfn_ctx bq a' order threads d).
+Proof. exact slot_variant_refuted. Qed.
+Print Assumptions C06_per_thread_slots_refuted.
